@@ -70,3 +70,15 @@ Proof. vm_compute. repeat split; reflexivity. Qed.
 Example C13_every_blocked_state_reachable : forall K name r, In r (wd_rows (worker name)) ->
   wreach K (worker name) (mkWst (BlockedAt r K) (map (fun _ => Running K) (wd_helpers (worker name)))).
 Proof. intros; apply blocked_reachable; assumption. Qed.
+
+(* ---------- the cancellation idioms of the pipe ingester, read from the source a second time ----------
+   Independently of Gen/Blocking.v, Gen/IngestProg.v (regenerated on every run from
+   NamedPipeIngester.Ingest) records the set-up of Ingest as data: readiness is reported before the
+   blocking open; the open runs in a goroutine and is awaited in a select with a ctx.Done arm returning
+   ctx.Err(); the close-on-cancel goroutine is started before the reader is created; the file is closed
+   when Ingest returns. *)
+From AM Require Import Model.IngestIR Gen.IngestProg Proofs.IngestIRTie.
+Theorem C13_ingest_setup_from_source :
+  open_is_cancellable (ip_setup gen_Ingest) = true /\ read_is_cancellable (ip_setup gen_Ingest) = true.
+Proof. pose proof setup_from_source as H. tauto. Qed.
+Print Assumptions C13_ingest_setup_from_source.
